@@ -10,6 +10,12 @@ CLAIMED = {
  "C04": ("smx", SMX,
          "Every script of the flow alphabet (outcome class x response app list x per-app status x policy x plan x per-app installer result x reboot answers, one-shot and continuous mode) is executed on the real state machine and judged by a reference written from the statement, including the only-if directions.",
          "Bounded to <=3 apps, response lists without repeated ids, one loop iteration; harness traits, futures-channel and serde_json are trusted.", "3/C04"),
+ "C06": ("smx", SMX,
+         "Every word of per-attempt outcomes (15-letter alphabet incl. transport/timeout/caller error, status classes with and without X-Retry-After, forged, unparseable) the flow consumes, x stored poll interval x CUP x every jitter draw of a boundary menu x delivery outcome of every event report, plus pings in the reboot wait, is executed; the reference decides which attempts may exist, the exact back-off duration from the injected draw, id freshness and metric accounting.",
+         "Jitter draw owned through the verif_hooks seam: the draw must come from rand::random::<u64>() in state_machine.rs; words longer than 3 would themselves be violations; one app.", "3/C06"),
+ "C10": ("smx", SMX,
+         "Every reporting path (unparseable, plan error, deferred, denied, install with every per-app result vector) for every app-set order, response list (incl. unknown id, manifest version present/absent) and every delivery outcome of each individual report is executed and compared with a reference report list; each faulty execution is also compared with the all-delivered run of the same script (outcome independence).",
+         "<=3 apps; zero-app reports and the lost-metric count of multi-app template reports are treated as unspecified; download_time_ms not compared.", "3/C10"),
 }
 
 PENDING_REASON = "check under construction in this round (design in DESIGN.md section 3); not claimed until its machinery is committed"
